@@ -22,6 +22,10 @@ def coerceIntBranches : List (String × String) := [("int", "int()"), ("float", 
 /-- `coerce_float`: the `try` around `float(x)` turns OverflowError (an int too large for a double) into ValueError -/
 def floatCatchesOverflow : Bool := true
 
+/-- value_from_ast raises InvalidValue before `parse_literal` when `not isinstance( node, ( _ast.IntValue, _ast.FloatValue, _ast.StringValue, _ast.BooleanValue, ), ) and ( type_ in SPECIFIED_SCALAR_TYPES or type_._parse_literal is None )`:
+    a custom scalar that brought its OWN parse_literal is handed every kind of literal (list / object / enum / null inside). -/
+def customOwnParseLiteralTakesAnyLiteral : Bool := true
+
 /-- literal kinds admitted by each specified scalar's `parse_literal` (`_typed_coerce(f, *node classes)`) -/
 def literalKinds : List (String × List String) := [
   ("Int", ["int"]),
